@@ -5,6 +5,11 @@ ROOT = os.path.dirname(os.path.dirname(os.path.abspath(__file__)))
 
 # id -> (engine, category, technique, level text, level note, design_ref)
 CHECKS = {
+ "C18": ("libmon", "exploration",
+   "runtime monitor with exact-value reference (big-integer mantissa/exponent numbers, unordered objects) plus direct observation of reflexivity, symmetry, transitivity on ogen's answers",
+   "Groups of JSON texts (random values in several spellings: whitespace, member order, number spellings, string escapes; near-equal mutants: one leaf changed, 2^53 vs 2^53+1, 0.1 vs 0.1000000000000000000001, huge exponents, kind confusions) are compared pairwise and in triples by the real json.Equal and by an exact reference; the relation's laws are checked on ogen's own answers. A second monitor feeds enum lists to the real schema parser and expects the duplicate-enum diagnostic iff two members are the same value.",
+   "Texts that are not RFC 8259 JSON or have duplicate member names / lone surrogates are only checked for no-panic and tallied. Enum members reach json.Equal through ogen's YAML front end; deviations caused there are listed as known findings F-C18-3..7.",
+   "DESIGN.md §2 C18"),
  "C05": ("servlab", "exploration",
    "runtime monitor on regenerated servers: every request decided by an independent reference router (backtracking template matcher); recording handler, FindPath cross-check",
    "Route sets over a segment alphabet with shared prefixes, mid-segment parameters and static/param siblings (regression list, a stride through all 1- and 2-template sets of depth<=2, PRNG sets of 3-4 templates of depth<=3; 1-3 methods per template) are generated into servers with the generator under test, compiled and driven in-process: template instances with fresh, sibling-static, tail-byte, empty and escaped values, near misses, re-escaped/hand-built URLs, malformed RawPath, all short paths over the set's alphabet, nine methods, with and without WithPathPrefix. Oracle: soundness of dispatch and arguments, static priority, restricted completeness, 404, 405/Allow, FindPath agreement.",
